@@ -44,3 +44,17 @@ Lemma subclasses_clone_problem_fields : forall f, In f (cloned_of "Problem") ->
 Proof.
   intros f H. split; revert f H; apply incl_str_incl; vm_compute; reflexivity.
 Qed.
+
+(* every attribute declared as a container of containers / of mutable objects is copied as deeply as it is declared
+   (a shallow `dict.copy()` of a dict of lists would share the lists), or is in the justified shallow list *)
+Lemma nested_fields_copied_deeply : forall r, In r required_depth -> deep_enough r = true.
+Proof. apply forallb_forall. vm_compute. reflexivity. Qed.
+
+Definition triple_eqb (a b : string * string * nat) : bool := pair_eqb (fst a) (fst b) && Nat.eqb (snd a) (snd b).
+Lemma mem_triple_In x l : existsb (triple_eqb x) l = true -> In x l.
+Proof.
+  intros H. apply existsb_exists in H. destruct H as [y [Hy E]]. unfold triple_eqb, pair_eqb in E.
+  apply andb_true_iff in E. destruct E as [E1 E3]. apply andb_true_iff in E1. destruct E1 as [E1 E2].
+  apply String.eqb_eq in E1. apply String.eqb_eq in E2. apply PeanoNat.Nat.eqb_eq in E3.
+  destruct x as [[a b] c], y as [[a' b'] c']; simpl in *; subst. exact Hy.
+Qed.
